@@ -1866,8 +1866,12 @@ class ArmV6:
     def execute_instruction(self, opcode):
         self.registers.changed_registers = [False] * 16
         self.executed_opcode = opcode
-        if self.in_it_block():
+        in_it_block = self.in_it_block()
+        self.registers.it_state_restored = False
+        try:
             opcode.execute(self)
-            self.registers.it_advance()
-        else:
-            opcode.execute(self)
+            if in_it_block and not self.registers.it_state_restored:
+                # an exception return installs the saved ITSTATE, which must not be advanced
+                self.registers.it_advance()
+        finally:
+            self.registers.it_state_restored = False
